@@ -2,7 +2,6 @@
 
 import ast
 import copy
-import itertools
 
 from ..rulekit import *
 from ..norm import Normalizer, Poly, NormError, INF
@@ -25,7 +24,13 @@ R = Rules(
         "composition data_received -> _dispatch_incoming is evaluated for every code value 0..255 x CSM seen/not "
         "seen and compared with the reference dispatch table (empty messages have no effect).  Paper step: with "
         "the reader table equal to the writer table and the spool the only state, the sequence of frames cut "
-        "from the concatenated stream does not depend on chunk boundaries.  Run-time chunking is not exercised."
+        "from the concatenated stream does not depend on chunk boundaries.  Run-time chunking is not exercised.  "
+        "Shape independence: the codec evaluator forks on conditional expressions, folds divmod / power-of-two division, "
+        "immutable module-level tables and unrolls `for` over constant sequences; a framing loop that was split into a loop "
+        "and a step function is put back together by exact inlining at loop level (return -> rest of the iteration; continue), "
+        "tests on locals that were just assigned a constant are decided at the assignment; locals are replaced by their unique "
+        "reaching definition only while the attributes they read are not stored again; constructor keywords and attribute "
+        "assignments on a fresh Message are the same fact."
     ),
     rule_text=(
         "piecewise tables from a path evaluator over a restricted statement language (intervals via DNF normal forms), "
@@ -69,170 +74,28 @@ SIGNALLING = {"CSM": 225, "PING": 226, "PONG": 227, "RELEASE": 228, "ABORT": 229
 # functions (the checker's own interpretation of a restricted statement language)
 
 
-def _txt(e):
-    return " ".join(ast.unparse(e).split())
+from . import _kit_c15 as K
+from ._kit_c15 import txt as _txt, subst as _subst, fold as _fold
 
 
-def _subst(e, env):
-    class T(ast.NodeTransformer):
-        def visit_Name(self, n):
-            if isinstance(n.ctx, ast.Load) and n.id in env:
-                return copy.deepcopy(env[n.id])
-            return n
+def _consts_of(prog, fi):
+    """resolver of immutable module-level constants of the module of fi (names
+    that are parameters or locals of fi are never constants)"""
+    local = set(params(fi, skip_self=False))
+    for n in walk_no_nested(fi.node):
+        if isinstance(n, ast.Name) and isinstance(n.ctx, (ast.Store, ast.Del)):
+            local.add(n.id)
 
-        def visit_Lambda(self, n):
-            return n
+    def consts(name):
+        if name in local:
+            return None
+        return K.module_const(prog, fi.module, name)
 
-    return T().visit(copy.deepcopy(e))
-
-
-def _const_node(v):
-    if v is None or isinstance(v, (bool, int, bytes, str)):
-        return ast.Constant(value=v)
-    return None
+    return consts
 
 
-def _fold(e, hook=None):
-    """Bottom-up constant folding with the checker's own evaluator; `hook`
-    may replace a sub-expression (used to bind the length nibble)."""
-
-    class F(ast.NodeTransformer):
-        def visit(self, n):
-            n = super().visit(n)
-            if not isinstance(n, ast.expr):
-                return n
-            if hook is not None:
-                r = hook(n)
-                if r is not None:
-                    return r
-            if isinstance(n, ast.BinOp) and isinstance(n.op, ast.Add) and isinstance(n.left, ast.List) and isinstance(n.right, ast.List):
-                return ast.List(elts=n.left.elts + n.right.elts, ctx=ast.Load())
-            if isinstance(n, ast.Subscript) and isinstance(n.value, (ast.Tuple, ast.List)) and isinstance(n.slice, ast.Constant) and isinstance(n.slice.value, int):
-                if -len(n.value.elts) <= n.slice.value < len(n.value.elts) and not any(isinstance(x, ast.Starred) for x in n.value.elts):
-                    return n.value.elts[n.slice.value]
-            if isinstance(n, (ast.BinOp, ast.UnaryOp, ast.Compare, ast.BoolOp)):
-                try:
-                    v = norm.consteval(n)
-                except Exception:
-                    return n
-                c = _const_node(v)
-                if c is not None:
-                    return c
-            return n
-
-    return F().visit(e)
-
-
-class _Path:
-    def __init__(self, conds, kind, value, node, stores):
-        self.conds = conds  # [(test expr (substituted), polarity)]
-        self.kind = kind  # 'return' | 'raise'
-        self.value = value  # substituted expression (None for a bare return / falling off the end)
-        self.node = node  # the Return / Raise statement (or the function for fall-off)
-        self.stores = stores  # [(target expr, value expr)] attribute / subscript stores on the path
-
-
-MUTATORS = {"append": 1, "extend": 1}
-
-
-def _enumerate_paths(fnode, hook=None, what="function", max_paths=96):
-    """All paths of a loop-free function as (path conditions, outcome) with
-    locals forward-substituted.  Anything outside the vocabulary is an
-    analysis error (exit 2), never a verdict."""
-    results = []
-
-    def ev(e, env):
-        return _fold(_subst(e, env), hook)
-
-    def block(stmts, states):
-        for st in stmts:
-            nxt = []
-            for env, conds, stores in states:
-                nxt.extend(step(st, env, conds, stores))
-            states = nxt
-            if len(states) + len(results) > max_paths:
-                raise AnalysisError("%s: more than %d paths" % (what, max_paths))
-        return states
-
-    def assign(env, target, value):
-        if isinstance(target, ast.Name):
-            env[target.id] = value
-            return True
-        if isinstance(target, (ast.Tuple, ast.List)) and all(isinstance(t, ast.Name) for t in target.elts):
-            if isinstance(value, (ast.Tuple, ast.List)) and len(value.elts) == len(target.elts):
-                for t, v in zip(target.elts, value.elts):
-                    env[t.id] = v
-            else:
-                for i, t in enumerate(target.elts):
-                    env[t.id] = ast.Subscript(value=copy.deepcopy(value), slice=ast.Constant(value=i), ctx=ast.Load())
-            return True
-        return False
-
-    def step(st, env, conds, stores):
-        if isinstance(st, (ast.Pass, ast.Assert, ast.Import, ast.ImportFrom, ast.Global, ast.Nonlocal)):
-            return [(env, conds, stores)]
-        if isinstance(st, ast.Expr):
-            v = st.value
-            if isinstance(v, ast.Constant):
-                return [(env, conds, stores)]
-            if isinstance(v, ast.Call) and isinstance(v.func, ast.Attribute) and isinstance(v.func.value, ast.Name) and v.func.value.id in env:
-                nm = v.func.value.id
-                cur = env[nm]
-                if v.func.attr in MUTATORS and isinstance(cur, ast.List) and len(v.args) == 1 and not v.keywords:
-                    env = dict(env)
-                    a = ev(v.args[0], env)
-                    if v.func.attr == "append":
-                        env[nm] = ast.List(elts=cur.elts + [a], ctx=ast.Load())
-                    elif isinstance(a, (ast.List, ast.Tuple)):
-                        env[nm] = ast.List(elts=cur.elts + list(a.elts), ctx=ast.Load())
-                    else:
-                        raise AnalysisError("%s: cannot interpret %s" % (what, _txt(st)))
-                    return [(env, conds, stores)]
-                if is_log_call(v):
-                    return [(env, conds, stores)]
-                raise AnalysisError("%s: method call on a tracked local is outside the evaluator's vocabulary: %s" % (what, _txt(st)))
-            return [(env, conds, stores)]
-        if isinstance(st, ast.Assign):
-            env = dict(env)
-            val = ev(st.value, env)
-            for t in st.targets:
-                if not assign(env, t, val):
-                    stores = stores + [(_subst(t, env), val)]
-            return [(env, conds, stores)]
-        if isinstance(st, ast.AnnAssign):
-            if st.value is None:
-                return [(env, conds, stores)]
-            env = dict(env)
-            val = ev(st.value, env)
-            if not assign(env, st.target, val):
-                stores = stores + [(_subst(st.target, env), val)]
-            return [(env, conds, stores)]
-        if isinstance(st, ast.AugAssign):
-            env = dict(env)
-            if isinstance(st.target, ast.Name):
-                cur = env.get(st.target.id, ast.Name(id=st.target.id, ctx=ast.Load()))
-                env[st.target.id] = _fold(ast.BinOp(left=copy.deepcopy(cur), op=st.op, right=_subst(st.value, env)), hook)
-            else:
-                stores = stores + [(_subst(st.target, env), ev(ast.BinOp(left=copy.deepcopy(st.target), op=st.op, right=st.value), env))]
-            return [(env, conds, stores)]
-        if isinstance(st, ast.If):
-            t = ev(st.test, env)
-            if isinstance(t, ast.Constant):
-                return block(st.body if t.value else st.orelse, [(env, conds, stores)])
-            out = block(st.body, [(dict(env), conds + [(t, True)], list(stores))])
-            out += block(st.orelse, [(dict(env), conds + [(t, False)], list(stores))])
-            return out
-        if isinstance(st, ast.Return):
-            results.append(_Path(conds, "return", ev(st.value, env) if st.value is not None else None, st, stores))
-            return []
-        if isinstance(st, ast.Raise):
-            results.append(_Path(conds, "raise", _subst(st.exc, env) if st.exc is not None else None, st, stores))
-            return []
-        raise AnalysisError("%s: statement kind %s is outside the path evaluator's vocabulary" % (what, type(st).__name__))
-
-    for env, conds, stores in block(fnode.body, [({}, [], [])]):
-        results.append(_Path(conds, "return", None, fnode, stores))
-    return results
+def _enumerate_paths(fnode, hook=None, what="function", max_paths=96, consts=None):
+    return K.enumerate_paths(fnode, hook=hook, what=what, max_paths=max_paths, consts=consts)
 
 
 def _dnf_of_conds(N, conds):
@@ -288,6 +151,30 @@ def _reaching(fi, cfg, name, nid):
     return out
 
 
+def _stale(fi, cfg, w, wn, nid):
+    """The value written by statement w (at node wn) reads an attribute chain
+    `self.X...` that may be stored again before the use at nid: the local is then
+    a snapshot, not an alias, and must not be replaced by its definition."""
+    val = getattr(w, "value", None)
+    if val is None:
+        return False
+    chains = {chain(x) for x in ast.walk(val) if isinstance(x, ast.Attribute) and chain(x)}
+    for c in chains:
+        if "." not in c:
+            continue
+        for _k, st in stores_to(fi.node, c, nested=False):
+            for sn in cfg.locate(st):
+                if sn == wn:
+                    continue
+                if sn == nid:
+                    if nid in cfg.reach({nid}, avoid={wn}):
+                        return True
+                    continue
+                if sn in cfg.reach({wn}, avoid={nid}) and nid in cfg.reach({sn}, avoid={wn}):
+                    return True
+    return False
+
+
 def _resolve_at(fi, cfg, e, nid, depth=6):
     """Replace locals by their unique reaching definition (recursively)."""
     if depth == 0:
@@ -304,6 +191,8 @@ def _resolve_at(fi, cfg, e, nid, depth=6):
             if len(defs) != 1 or defs[0][0] == "entry":
                 return n
             w, wn = defs[0]
+            if _stale(fi, cfg, w, wn, nid):
+                return n
             if isinstance(w, ast.Assign) and len(w.targets) == 1:
                 t = w.targets[0]
                 if isinstance(t, ast.Name):
@@ -320,6 +209,38 @@ def _resolve_at(fi, cfg, e, nid, depth=6):
             return n
 
     return T().visit(copy.deepcopy(e))
+
+
+def _possible_values(fi, cfg, e, nid, depth=4):
+    """The expressions whose value e may have at nid: every reaching definition
+    of a multiply-assigned local, both arms of a conditional expression.  None
+    when some possibility is unknown (the name may reach nid unassigned, or is
+    bound by something that is not a plain assignment)."""
+    if depth == 0:
+        return None
+    if isinstance(e, ast.IfExp):
+        a = _possible_values(fi, cfg, e.body, nid, depth - 1)
+        b = _possible_values(fi, cfg, e.orelse, nid, depth - 1)
+        return None if a is None or b is None else a + b
+    if isinstance(e, ast.Name):
+        defs = _reaching(fi, cfg, e.id, nid)
+        if not defs:
+            return [e]
+        out = []
+        for w, wn in defs:
+            if w == "entry" or not (isinstance(w, (ast.Assign, ast.AnnAssign)) and getattr(w, "value", None) is not None):
+                return None
+            tgts = w.targets if isinstance(w, ast.Assign) else [w.target]
+            if not (len(tgts) == 1 and isinstance(tgts[0], ast.Name)):
+                return None
+            if _stale(fi, cfg, w, wn, nid):
+                return None
+            r = _possible_values(fi, cfg, w.value, wn, depth - 1)
+            if r is None:
+                return None
+            out += r
+        return out
+    return [_resolve_at(fi, cfg, e, nid)]
 
 
 def _def_stmt(fi, cfg, name_node, nid):
@@ -379,12 +300,27 @@ def _writer_table(ctx, fi):
     N = Normalizer()
     rows = []
     positions = set()
-    for path in _enumerate_paths(fi.node, what="_encode_length"):
+    for path in _enumerate_paths(fi.node, what="_encode_length", consts=_consts_of(ctx.prog, fi)):
         out = None
+        # paths whose conditions no length >= 0 satisfies do not exist
+        ivs = []
+        for conj in _dnf_of_conds(N, path.conds):
+            iv = norm.interval_of(conj, var)
+            ctx.need(iv is not None, "_encode_length: a branch condition is not a comparison of the length with constants: %s" % "; ".join(_txt(t) for t, _ in path.conds))
+            if max(iv[0], 0) <= iv[1]:
+                ivs.append((max(iv[0], 0), iv[1]))
+        if not ivs:
+            continue
+        if path.kind == "return" and (path.value is None or (isinstance(path.value, ast.Constant) and path.value.value is None)):
+            # falls off the end / returns None for these lengths: no encoding (reported by C15.a)
+            for lo, hi in ivs:
+                rows.append((lo, hi, None, path))
+            continue
         if path.kind == "return":
             v = path.value
             ctx.need(isinstance(v, ast.Tuple) and len(v.elts) == 2, "_encode_length returns something other than a (nibble, extension) pair: %s" % (_txt(v) if v is not None else None))
-            ext_i = [i for i, x in enumerate(v.elts) if (isinstance(x, ast.Constant) and isinstance(x.value, bytes)) or (isinstance(x, ast.Call) and isinstance(x.func, ast.Attribute) and x.func.attr == "to_bytes")]
+            ext_i = [i for i, x in enumerate(v.elts) if (isinstance(x, ast.Constant) and isinstance(x.value, bytes)) or (isinstance(x, ast.Call) and isinstance(x.func, ast.Attribute) and x.func.attr == "to_bytes")
+                     or _single_byte(x) is not None]
             ctx.need(len(ext_i) == 1, "cannot tell the extension bytes from the nibble in %s" % _txt(v))
             ei = ext_i[0]
             positions.add((1 - ei, ei))
@@ -398,28 +334,29 @@ def _writer_table(ctx, fi):
                 ctx.need(ext.value == b"", "constant non-empty extension %r" % (ext.value,))
                 width, off, order = 0, 0, "big"
             else:
-                ctx.need(len(ext.args) >= 1 or any(k.arg == "length" for k in ext.keywords), "to_bytes without a length")
-                wnode = ext.args[0] if ext.args else [k.value for k in ext.keywords if k.arg == "length"][0]
-                try:
-                    width = norm.consteval(wnode)
-                except NormError:
-                    width = None
-                ctx.need(isinstance(width, int), "extension width %s is not constant" % _txt(wnode))
-                order = _bytes_order(ext, 1)
-                pv = N.poly(ext.func.value)
+                if isinstance(ext.func, ast.Attribute) and ext.func.attr == "to_bytes":
+                    ctx.need(len(ext.args) >= 1 or any(k.arg == "length" for k in ext.keywords), "to_bytes without a length")
+                    wnode = ext.args[0] if ext.args else [k.value for k in ext.keywords if k.arg == "length"][0]
+                    try:
+                        width = norm.consteval(wnode)
+                    except NormError:
+                        width = None
+                    ctx.need(isinstance(width, int), "extension width %s is not constant" % _txt(wnode))
+                    order = _bytes_order(ext, 1)
+                    extval = ext.func.value
+                else:
+                    # bytes((x,)): one byte, trivially big endian
+                    width, order, extval = 1, "big", _single_byte(ext)
+                pv = N.poly(extval)
                 coef = pv.t.get(((var, 1),), 0)
                 rest = set(pv.t) - {((var, 1),), ()}
-                ctx.need(coef == 1 and not rest, "extension value %s is not (length - constant)" % _txt(ext.func.value))
+                ctx.need(coef == 1 and not rest, "extension value %s is not (length - constant)" % _txt(extval))
                 off = -pv.t.get((), 0)
                 ctx.need(off.denominator == 1, "non-integer offset")
                 off = int(off)
             out = (nibble, off, width, order)
-        for conj in _dnf_of_conds(N, path.conds):
-            iv = norm.interval_of(conj, var)
-            ctx.need(iv is not None, "_encode_length: a branch condition is not a comparison of the length with constants: %s" % "; ".join(_txt(t) for t, _ in path.conds))
-            lo, hi = max(iv[0], 0), iv[1]
-            if lo <= hi:
-                rows.append((lo, hi, out, path))
+        for lo, hi in ivs:
+            rows.append((lo, hi, out, path))
     ctx.need(len(positions) == 1, "_encode_length returns the nibble at varying positions")
     rows.sort(key=lambda r: r[0])
     return rows, positions.pop()
@@ -466,7 +403,7 @@ def _reader_table(ctx, fi):
                 return ast.Constant(value=n)
             return None
 
-        paths = _enumerate_paths(fi.node, hook=hook, what="_extract_message_size")
+        paths = _enumerate_paths(fi.node, hook=hook, what="_extract_message_size", consts=_consts_of(ctx.prog, fi))
         tuples = [x for x in paths if x.kind == "return" and x.value is not None and not (isinstance(x.value, ast.Constant) and x.value.value is None)]
         nones = [x for x in paths if x.kind == "return" and (x.value is None or (isinstance(x.value, ast.Constant) and x.value.value is None))]
         ctx.need(len(tuples) == 1 and len(tuples) + len(nones) == len(paths), "_extract_message_size: for length nibble %d there is not exactly one path returning a size (paths: %d)" % (n, len(paths)))
@@ -491,7 +428,18 @@ def _reader_table(ctx, fi):
         ent = {"path": t, "tkl_ok": tkl_field(tk), "tokenoffset": to.value if isinstance(to, ast.Constant) else None}
         # body length = const + int.from_bytes(P[a:b], order)
         calls = [c for c in ast.walk(ln) if isinstance(c, ast.Call) and chain(c.func) == "int.from_bytes"]
-        if not calls:
+        idx = [x for x in ast.walk(ln) if isinstance(x, ast.Subscript) and chain(x.value) == P and not isinstance(x.slice, ast.Slice)]
+        if not calls and len(idx) == 1:
+            # one extension byte read by plain indexing: P[k] + constant
+            pv = N.poly(ln)
+            atom = N.atom_name(idx[0])
+            try:
+                k = norm.consteval(idx[0].slice)
+            except NormError:
+                k = None
+            ctx.need(set(pv.t) <= {((atom, 1),), ()} and pv.t.get(((atom, 1),)) == 1 and isinstance(k, int), "body length %s is not input[k] + constant" % _txt(ln))
+            ent.update(const=int(pv.t.get((), 0)), width=1, order="big", start=k)
+        elif not calls:
             try:
                 ent.update(const=norm.consteval(ln), width=0, order="big", start=None)
             except NormError:
@@ -595,21 +543,34 @@ def a(ctx):
 
 
 def _flatten_concat(e):
-    """Parts of a bytes concatenation: b"".join([...]) (nested) and +."""
-    if isinstance(e, ast.Call) and isinstance(e.func, ast.Attribute) and e.func.attr == "join" and isinstance(e.func.value, ast.Constant) and e.func.value.value == b"" and len(e.args) == 1 and isinstance(e.args[0], (ast.List, ast.Tuple)):
+    """Parts of a bytes concatenation: b"".join(<list/tuple display>) (nested),
+    `+`, bytes(<concatenation>) -- with empty bytes constants dropped (the
+    neutral element; `x + b""` is `x`)."""
+    if isinstance(e, ast.Call) and isinstance(e.func, ast.Attribute) and e.func.attr == "join" and isinstance(e.func.value, ast.Constant) and isinstance(e.func.value.value, bytes) and e.func.value.value == b"" \
+            and len(e.args) == 1 and not e.keywords and isinstance(e.args[0], (ast.List, ast.Tuple)) and not any(isinstance(x, ast.Starred) for x in e.args[0].elts):
         out = []
         for x in e.args[0].elts:
             out.extend(_flatten_concat(x))
         return out
     if isinstance(e, ast.BinOp) and isinstance(e.op, ast.Add):
         return _flatten_concat(e.left) + _flatten_concat(e.right)
+    if isinstance(e, ast.Constant) and e.value == b"" and isinstance(e.value, bytes):
+        return []
     return [e]
 
 
 def _single_byte(e):
-    """x for bytes((x,)) / bytes([x]), else None."""
-    if isinstance(e, ast.Call) and chain(e.func) == "bytes" and len(e.args) == 1 and not e.keywords and isinstance(e.args[0], (ast.Tuple, ast.List)) and len(e.args[0].elts) == 1:
+    """x for the one-byte strings bytes((x,)) / bytes([x]) / x.to_bytes(1, <any order>), else None."""
+    if isinstance(e, ast.Call) and chain(e.func) == "bytes" and len(e.args) == 1 and not e.keywords and isinstance(e.args[0], (ast.Tuple, ast.List)) and len(e.args[0].elts) == 1 \
+            and not isinstance(e.args[0].elts[0], ast.Starred):
         return e.args[0].elts[0]
+    if isinstance(e, ast.Call) and isinstance(e.func, ast.Attribute) and e.func.attr == "to_bytes":
+        w = e.args[0] if e.args else next((k.value for k in e.keywords if k.arg == "length"), None)
+        try:
+            if w is not None and norm.consteval(w) == 1 and not any(k.arg == "signed" for k in e.keywords):
+                return e.func.value
+        except NormError:
+            return None
     return None
 
 
@@ -627,7 +588,7 @@ def b(ctx):
     ctx.need(len(sp) == 1 and not writes_to_name(sfi.node, sp[0]), "_serialize(msg) signature changed")
     M = sp[0]
     N = Normalizer()
-    paths = _enumerate_paths(sfi.node, what="_serialize")
+    paths = _enumerate_paths(sfi.node, what="_serialize", consts=_consts_of(prog, sfi))
     rets = [p for p in paths if p.kind == "return"]
     raises = [p for p in paths if p.kind == "raise"]
     ctx.floor("returning paths of _serialize", len(rets), 1)
@@ -694,7 +655,7 @@ def b(ctx):
     TO = Poly.atom(_txt(_sub(extcall, rpos[0])))
     TKname = _txt(_sub(extcall, rpos[1]))
     TK = Poly.atom(TKname)
-    paths = _enumerate_paths(dfi.node, what="_decode_message")
+    paths = _enumerate_paths(dfi.node, what="_decode_message", consts=_consts_of(prog, dfi))
     for p in paths:
         for x in ast.walk(ast.Module(body=[ast.Expr(value=v) for v in ([p.value] if p.value is not None else []) + [t for t, _ in p.conds]], type_ignores=[])):
             if isinstance(x, ast.Call) and chain(x.func) and chain(x.func).endswith("_extract_message_size"):
@@ -715,6 +676,11 @@ def b(ctx):
         is_msg = isinstance(v, ast.Call) and chain(v.func) is not None and prog.resolve_in_module(dfi.module, chain(v.func)) == "aiocoap.message.Message"
         ctx.need(is_msg, "_decode_message does not return a freshly constructed Message: %s" % (_txt(v) if v is not None else None))
         kw = {k.arg: k.value for k in v.keywords}
+        # a constructor keyword and an attribute assignment on the fresh message
+        # before it is returned are the same fact (the last one wins)
+        for tgt, val in p.stores:
+            if isinstance(tgt, ast.Attribute) and tgt.attr in ("code", "token", "_token") and dump(tgt.value) == dump(v):
+                kw[tgt.attr] = val
         c = kw.get("code")
         ok = isinstance(c, ast.Subscript) and chain(c.value) == P and not isinstance(c.slice, ast.Slice) and poly(c.slice) == TO - Poly.const(1)
         ctx.ob("reader: the code is the byte before the token offset", ok, dfi, node, detail="code = %s" % (_txt(c) if c is not None else None))
@@ -759,7 +725,22 @@ def _frame_loop(ctx):
         return L
     prog = ctx.prog
     L = _Loop()
-    fi = L.fi = prog.func(TCP + "TcpConnection.data_received")
+    fi0 = prog.func(TCP + "TcpConnection.data_received")
+
+    def has_sizing(f):
+        return any(_callee_is(prog, f, c, "aiocoap.transports.tcp._extract_message_size") for c in calls_in(f.node))
+
+    # the framing loop may have been split into a loop and a step function
+    # (`while self._step(): pass`): the rules look at the loop put back together
+    fi, fused = K.fuse(prog, fi0, has_sizing)
+    if fused:
+        ctx.note("data_received: step function(s) %s expanded into the framing loop" % ", ".join(fused))
+    # tests on a local that was just assigned a constant (loop flags left behind by
+    # helper expansion) are moved to the assignment and decided there
+    fi, thr = K.threaded(fi)
+    if thr:
+        ctx.note("data_received: tests on constant-assigned locals threaded")
+    L.fi = fi
     p = params(fi)
     ctx.need(len(p) == 1 and not writes_to_name(fi.node, p[0]), "data_received(self, data) signature changed")
     L.D = p[0]
@@ -768,8 +749,8 @@ def _frame_loop(ctx):
     ext = [c for c in calls_in(fi.node) if _callee_is(prog, fi, c, "aiocoap.transports.tcp._extract_message_size")]
     ctx.need(len(ext) == 1, "data_received sizes the spool at %d sites (expected exactly one)" % len(ext))
     L.ext = ext[0]
-    ctx.need(len(L.ext.args) == 1 and chain(L.ext.args[0]) == "self._spool", "_extract_message_size is not applied to self._spool")
     L.E = cfg.loc1(L.ext)
+    ctx.need(len(L.ext.args) == 1 and not L.ext.keywords and chain(_resolve_at(fi, cfg, L.ext.args[0], L.E)) == "self._spool", "_extract_message_size is not applied to self._spool")
     ctx.need(L.E in cfg.reach({L.E}), "the sizing of the spool is not inside a loop")
     dec = [c for c in calls_in(fi.node) if _callee_is(prog, fi, c, "aiocoap.transports.tcp._decode_message")]
     ctx.need(len(dec) == 1 and len(dec[0].args) == 1, "data_received decodes frames at %d sites (expected exactly one)" % len(dec))
@@ -782,7 +763,7 @@ def _frame_loop(ctx):
     L.dispatch_nodes = {cfg.loc1(c) for c in L.dispatch}
     L.signalling_nodes = {cfg.loc1(c) for c in L.signalling}
     L.effects = L.dispatch_nodes | L.signalling_nodes
-    extdump = dump(L.ext)
+    extdump = dump(_resolve_at(fi, cfg, L.ext, L.E))
     N = L.N = Normalizer()
     want_total = Poly.atom("EXT__[0]") + Poly.atom("EXT__[1]") + Poly.atom("EXT__[2]")
 
@@ -837,6 +818,45 @@ def _frame_loop(ctx):
     return L
 
 
+def _is_decoded(L, e, nid, depth=4):
+    """e, used at CFG node nid, denotes the message returned by the (one)
+    _decode_message call: the call itself, or a local whose unique reaching
+    definition is an assignment from it, possibly through plain copies."""
+    if e is L.dec:
+        return True
+    if not isinstance(e, ast.Name) or depth == 0:
+        return False
+    w = _def_stmt(L.fi, L.cfg, e, nid)
+    if not (isinstance(w, ast.Assign) and len(w.targets) == 1 and isinstance(w.targets[0], ast.Name)):
+        return False
+    if w.value is L.dec:
+        return True
+    if isinstance(w.value, ast.Name):
+        return _is_decoded(L, w.value, L.cfg.loc1(w), depth - 1)
+    return False
+
+
+def _stored_value(st, field):
+    """Expression whose value statement st stores into the attribute chain
+    `field` (plain, augmented or element-wise tuple assignment), else None."""
+    if isinstance(st, ast.AugAssign) and chain(st.target) == field:
+        tgt = copy.deepcopy(st.target)
+        tgt.ctx = ast.Load()
+        return ast.BinOp(left=tgt, op=st.op, right=st.value)
+    if isinstance(st, ast.AnnAssign) and chain(st.target) == field:
+        return st.value
+    if isinstance(st, ast.Assign):
+        for t in st.targets:
+            if chain(t) == field:
+                return st.value
+            if isinstance(t, (ast.Tuple, ast.List)) and isinstance(st.value, (ast.Tuple, ast.List)) and len(t.elts) == len(st.value.elts) \
+                    and not any(isinstance(x, ast.Starred) for x in list(t.elts) + list(st.value.elts)):
+                for tt, vv in zip(t.elts, st.value.elts):
+                    if chain(tt) == field:
+                        return vv
+    return None
+
+
 def _gate(ctx, facts, want, what):
     """Dominating branch outcomes equal to the wanted normal form.  When there
     is none but a dominating test is an opaque call on self / a plain function
@@ -887,23 +907,20 @@ def c(ctx):
     appends, advances = [], []
     for kind, st in spool_stores:
         nid = cfg.loc1(st)
-        is_append = False
-        if isinstance(st, ast.AugAssign) and isinstance(st.op, ast.Add) and isinstance(st.value, ast.Name) and st.value.id == L.D:
-            is_append = True
-        elif isinstance(st, ast.Assign) and match("self._spool + %s" % L.D, st.value) is not None:
-            is_append = True
+        # the value stored, whatever the spelling of the store: `S = v`, `S += v` (= S + v),
+        # `a, S = x, v` (element-wise; the right-hand side is evaluated before any store)
+        val = _stored_value(st, "self._spool") if kind == "assign" else None
+        rv = L.at(val, nid) if val is not None else None
+        parts = _flatten_concat(rv) if rv is not None else []
+        is_append = len(parts) == 2 and chain(parts[0]) == "self._spool" and isinstance(parts[1], ast.Name) and parts[1].id == L.D
         if is_append:
             ok = cfg.dominates(nid, L.E) and nid not in cfg.reach({nid})
             ctx.ob("the received chunk is appended to the spool once, before the framing loop", ok, fi, st)
             appends.append(nid)
             continue
-        is_adv = False
-        if kind == "assign" and isinstance(st, ast.Assign):
-            v = L.at(st.value, nid)
-            b = match("self._spool[TOTAL__:]", v)
-            is_adv = b is not None
+        is_adv = rv is not None and match("self._spool[TOTAL__:]", rv) is not None
         ctx.ob("the spool is only ever advanced by the total size of the frame just cut (tokenoffset + tkl + length)", is_adv, fi, st,
-               detail="stored value resolves to %s" % _txt(L.at(st.value, nid)) if isinstance(st, (ast.Assign, ast.AugAssign)) else kind)
+               detail="stored value resolves to %s" % _txt(rv) if rv is not None else kind)
         if is_adv:
             advances.append(nid)
     ctx.ob("the chunk is appended to the spool", len(appends) == 1, fi, fi.node, construct="data_received", detail="%d append site(s)" % len(appends))
@@ -916,7 +933,8 @@ def c(ctx):
     S = cfg.loc1(w) if w is not None and not isinstance(w, str) else L.DEC
     store_nodes = {cfg.loc1(st) for _, st in spool_stores}
     region = cfg.reach({L.E}, avoid={L.E, S})
-    dirty = [n for n in store_nodes if n in region and (S in cfg.reach({n}, avoid={L.E}) or n == S)]
+    # (a store in the cutting statement itself happens after its right-hand side was evaluated)
+    dirty = [n for n in store_nodes if n in region and n != S and S in cfg.reach({n}, avoid={L.E})]
     ctx.ob("the spool is not modified between sizing it and cutting the frame", not dirty, fi, cfg.nodes[dirty[0]].ast if dirty else L.dec)
     ctx.ob("after a frame is decoded the spool is advanced before the next frame is sized", bool(advances) and cfg.must_pass(L.DEC, advances, to=L.E), fi, L.dec,
            detail="%d advance site(s)" % len(advances))
@@ -971,8 +989,7 @@ def d(ctx):
             ctx.ob("a request or response before the CSM aborts the connection and is not dispatched", ok, fi, e)
         ctx.ob("dispatch happens only after the frame was decoded", cfg.dominates(L.DEC, nid), fi, call)
         a = call.args[-1] if call.args else None
-        w = _def_stmt(fi, cfg, a, nid) if a is not None else None
-        ctx.ob("the message dispatched is the one just decoded", w is not None and isinstance(w, ast.Assign) and w.value is L.dec, fi, call)
+        ctx.ob("the message dispatched is the one just decoded", a is not None and not call.keywords and _is_decoded(L, a, nid), fi, call)
 
 
 # ---------------------------------------------------------------------------
@@ -1003,6 +1020,14 @@ def e(ctx):
     ctx.floor("option format classes (subclasses of optiontypes.OptionType)", len(formats), 6)
     prog.func("numbers.optionnumbers.OptionNumber.create_option")
     EA = EscapeAnalysis(prog, hints={("numbers.optionnumbers.OptionNumber.create_option", "option"): formats})
+    # premise for exempting a `self.D[k]` KeyError site: the key is known to be present
+    # (membership test / insertion of the same key on every path, nothing in between
+    # that could remove it) -- see _kit_c15.present_key_reads
+    exempt = []
+    for f_ in prog.funcs.values():
+        for sub in K.present_key_reads(f_):
+            EA.dead_nodes.add(id(sub))
+            exempt.append("%s: %s" % (f_.short, _txt(sub)))
     escs = EA.escapes(fi)
     ctx.need(not EA.unresolved, "calls in the decoding region could not be resolved: %s" % EA.unresolved[:5])
     allowed = "aiocoap.error.UnparsableMessage"
@@ -1031,6 +1056,7 @@ def e(ctx):
         "lemmas_used": EA.lemmas_used,
         "by_unique_name": EA.res.by_unique_name,
         "format_dispatch_hint": formats,
+        "key_present_reads_exempted": sorted(exempt),
     }
     ctx.floor("UnparsableMessage raise sites reached from _decode_message", len(good), 3)
 
@@ -1071,28 +1097,69 @@ def _is_message_ctor(prog, fi, e):
     return isinstance(e, ast.Call) and chain(e.func) is not None and prog.resolve_in_module(fi.module, chain(e.func)) == "aiocoap.message.Message"
 
 
+def _message_fields(prog, fi, cfg, e, nid):
+    """{field: value expression | None} of the message denoted by expression e at
+    CFG node nid, or None when e does not resolve to a Message(...) construction.
+    A constructor keyword and an attribute assignment `<the same local>.field = v`
+    that is executed on every path from the construction to nid are the same fact
+    (the assignment wins); a field that is assigned only on some paths is unknown
+    (None)."""
+    m = _resolve_at(fi, cfg, e, nid)
+    if not _is_message_ctor(prog, fi, m) or m.args or any(k.arg is None for k in m.keywords):
+        return None
+    fields = {k.arg: k.value for k in m.keywords}
+    if isinstance(e, ast.Name):
+        w = _def_stmt(fi, cfg, e, nid)
+        if w is not None:
+            for st in walk_no_nested(fi.node):
+                if not isinstance(st, (ast.Assign, ast.AugAssign, ast.AnnAssign)):
+                    continue
+                tgts = st.targets if isinstance(st, ast.Assign) else [st.target]
+                for t in tgts:
+                    if isinstance(t, ast.Attribute) and isinstance(t.value, ast.Name) and t.value.id == e.id:
+                        for sn in cfg.locate(st):
+                            if _def_stmt(fi, cfg, t.value, sn) is not w:
+                                continue
+                            if sn == nid or nid not in cfg.reach({sn}, include_src=True):
+                                continue
+                            if isinstance(st, ast.Assign) and cfg.dominates(sn, nid) and sn not in cfg.reach({sn}, avoid={cfg.loc1(w)}):
+                                fields[t.attr] = _resolve_at(fi, cfg, st.value, sn)
+                            else:
+                                fields[t.attr] = None
+    return fields
+
+
+def _calls_on(fi, cfg, recv_chain, names):
+    """calls `R.m(...)` with m in names whose receiver R is the attribute chain
+    recv_chain, directly or through locals that are (fresh) aliases of it"""
+    out = []
+    for c in calls_in(fi.node):
+        if isinstance(c.func, ast.Attribute) and c.func.attr in names:
+            for nid in cfg.locate(c)[:1]:
+                if chain(_resolve_at(fi, cfg, c.func.value, nid)) == recv_chain:
+                    out.append(c)
+    return out
+
+
 @R.clause("C15.f", "abort builds a 7.05 Abort message and hands it to _abort_with, which writes it before closing the transport")
 def f(ctx):
     prog = ctx.prog
     afi = prog.func("transports.rfc8323common.RFC8323Remote.abort")
     cfg = cfg_of(afi)
-    calls = [c_ for c_, _ in find("self._abort_with($m)", afi.node)]
+    calls = [c_ for c_ in _calls_on(afi, cfg, "self", {"_abort_with"}) if len(c_.args) == 1 and not c_.keywords]
     ctx.ob("every normal path through abort reaches _abort_with", bool(calls) and cfg.must_pass(cfg.entry, {cfg.loc1(c_) for c_ in calls}), afi, calls[0] if calls else afi.node,
            construct=None if calls else "abort")
     for c_ in calls:
-        m = _resolve_at(afi, cfg, c_.args[0], cfg.loc1(c_))
-        code = None
-        if _is_message_ctor(prog, afi, m):
-            kw = {k.arg: k.value for k in m.keywords}
-            if "code" in kw:
-                code = _code_member(prog, afi.module, kw["code"])
-        ctx.ob("the message handed to _abort_with is Message(code=7.05 Abort)", code == SIGNALLING["ABORT"], afi, c_, detail="resolves to %s, code value %s" % (_txt(m), code))
+        flds = _message_fields(prog, afi, cfg, c_.args[0], cfg.loc1(c_))
+        code = _code_member(prog, afi.module, flds["code"]) if flds and flds.get("code") is not None else None
+        ctx.ob("the message handed to _abort_with is Message(code=7.05 Abort)", code == SIGNALLING["ABORT"], afi, c_,
+               detail="resolves to %s, code value %s" % (_txt(_resolve_at(afi, cfg, c_.args[0], cfg.loc1(c_))), code))
     tfi = prog.func(TCP + "TcpConnection._abort_with")
     tp = params(tfi)
     ctx.need(len(tp) == 1 and not writes_to_name(tfi.node, tp[0]), "_abort_with(self, abort_msg) signature changed")
     cfg = cfg_of(tfi)
-    closes = [c_ for c_, _ in find("self._transport.close()", tfi.node)] + [c_ for c_, _ in find("self._transport.abort()", tfi.node)]
-    sends = [c_ for c_, _ in find("self._send_message(%s)" % tp[0], tfi.node)]
+    closes = _calls_on(tfi, cfg, "self._transport", {"close", "abort"})
+    sends = [c_ for c_ in _calls_on(tfi, cfg, "self", {"_send_message"}) if len(c_.args) == 1 and not c_.keywords and chain(_resolve_at(tfi, cfg, c_.args[0], cfg.loc1(c_))) == tp[0]]
     ctx.ob("_abort_with closes the transport", bool(closes), tfi, tfi.node, construct="_abort_with")
     send_nodes = {cfg.loc1(s) for s in sends}
     close_nodes = {cfg.loc1(s) for s in closes}
@@ -1107,12 +1174,12 @@ def f(ctx):
     for n in cfg.nodes:
         if n.kind in ("T", "F") and isinstance(n.ast, ast.expr):
             try:
-                cnf = Normalizer().cmp(n.ast)
+                cnf = Normalizer().cmp(_resolve_at(tfi, cfg, n.ast, _test_node_of(cfg, n.id)))
             except NormError:
                 continue
             if n.kind == "F":
                 cnf = Normalizer().negate(cnf)
-            if cnf == ("isnot", "self._transport", "None"):
+            if cnf in (("isnot", "self._transport", "None"), ("truth", "self._transport")):
                 t_guards.append(n.id)
     for g in t_guards:
         ctx.ob("whenever a transport exists, Abort is sent and the transport closed", cfg.must_pass(g, send_nodes) and cfg.must_pass(g, close_nodes), tfi, cfg.nodes[g].ast)
@@ -1122,36 +1189,24 @@ def f(ctx):
     sp = params(sfi)
     ctx.need(len(sp) == 1 and not writes_to_name(sfi.node, sp[0]), "_send_message(self, msg) signature changed")
     cfg = cfg_of(sfi)
-    writes = [c_ for c_, b_ in find("self._transport.write($x)", sfi.node)
-              if isinstance(b_["x"], ast.Call) and _callee_is(prog, sfi, b_["x"], "aiocoap.transports.tcp._serialize") and len(b_["x"].args) == 1 and chain(b_["x"].args[0]) == sp[0]]
-    allw = [c_ for c_, _ in find("self._transport.write($x)", sfi.node)]
+    allw = _calls_on(sfi, cfg, "self._transport", {"write", "writelines"})
+    writes = []
+    for c_ in allw:
+        x = _resolve_at(sfi, cfg, c_.args[0], cfg.loc1(c_)) if len(c_.args) == 1 and not c_.keywords and c_.func.attr == "write" else None
+        if isinstance(x, ast.Call) and _callee_is(prog, sfi, x, "aiocoap.transports.tcp._serialize") and len(x.args) == 1 and not x.keywords and chain(_resolve_at(sfi, cfg, x.args[0], cfg.loc1(c_))) == sp[0]:
+            writes.append(c_)
     ctx.ob("_send_message writes exactly _serialize(message) to the transport on every normal path", len(writes) == 1 and len(allw) == 1 and cfg.must_pass(cfg.entry, {cfg.loc1(writes[0])}) and cfg.loc1(writes[0]) not in cfg.reach({cfg.loc1(writes[0])}),
            sfi, allw[0] if allw else sfi.node, construct=None if allw else "_send_message")
     pfi = prog.func(TCP + "_TCPPooling.send_message")
     pp = params(pfi)
     ctx.need(len(pp) >= 1 and not writes_to_name(pfi.node, pp[0]), "_TCPPooling.send_message(self, message, ...) signature changed")
-    outs = [c_ for c_, _ in find("%s.remote._send_message(%s)" % (pp[0], pp[0]), pfi.node)]
+    pcfg = cfg_of(pfi)
+    outs = [c_ for c_ in _calls_on(pfi, pcfg, pp[0] + ".remote", {"_send_message"}) if len(c_.args) == 1 and not c_.keywords and chain(_resolve_at(pfi, pcfg, c_.args[0], pcfg.loc1(c_))) == pp[0]]
     ctx.ob("outgoing messages are handed unchanged to the connection's _send_message", len(outs) >= 1, pfi, outs[0] if outs else pfi.node, construct=None if outs else "send_message")
 
 
 # ---------------------------------------------------------------------------
 # finite-domain evaluation of guards over the code value (E5)
-
-
-def _method_predicate(fi):
-    """The boolean expression a one-line predicate method returns
-    (`return <b>` or `return True if <b> else False`)."""
-    body = [s for s in fi.node.body if not (isinstance(s, ast.Expr) and isinstance(s.value, ast.Constant))]
-    if len(body) != 1 or not isinstance(body[0], ast.Return) or body[0].value is None:
-        return None
-    v = body[0].value
-    if isinstance(v, ast.IfExp) and isinstance(v.body, ast.Constant) and isinstance(v.orelse, ast.Constant):
-        if v.body.value is True and v.orelse.value is False:
-            return v.test
-        if v.body.value is False and v.orelse.value is True:
-            return ast.UnaryOp(op=ast.Not(), operand=v.test)
-        return None
-    return v
 
 
 def _code_sets(ctx):
@@ -1191,6 +1246,13 @@ def _eval_code_test(ctx, module, test, is_code, v):
             flip = {ast.Lt: ast.Gt, ast.Gt: ast.Lt, ast.LtE: ast.GtE, ast.GtE: ast.LtE}
             l, r, op = r, l, flip.get(type(op), type(op))()
         if is_code(l):
+            if isinstance(op, (ast.In, ast.NotIn)) and isinstance(r, ast.Name):
+                # a module-level constant collection of codes (immutable, bound once)
+                c_ = K.module_const(prog, module, r.id)
+                if isinstance(c_, (ast.Tuple, ast.List)):
+                    r = c_
+            if isinstance(op, (ast.In, ast.NotIn)) and isinstance(r, ast.Call) and chain(r.func) in ("frozenset", "set", "tuple") and len(r.args) == 1 and not r.keywords and isinstance(r.args[0], (ast.Tuple, ast.List, ast.Set)):
+                r = r.args[0]
             if isinstance(op, (ast.In, ast.NotIn)) and isinstance(r, (ast.Tuple, ast.List, ast.Set)):
                 vals = [_code_value(prog, module, x) for x in r.elts]
                 if any(x is None for x in vals):
@@ -1266,7 +1328,11 @@ def _option_domain(ctx, others, loopvars):
         if isinstance(g, ast.For):
             continue
         handled = False
-        if isinstance(g, ast.Compare) and len(g.ops) == 1 and chain(g.left) in {lv + ".number" for lv in loopvars}:
+        numbers = {lv + ".number" for lv in loopvars}
+        if isinstance(g, ast.Compare) and len(g.ops) == 1 and isinstance(g.ops[0], (ast.Eq, ast.NotEq)) and chain(g.comparators[0]) in numbers and chain(g.left) not in numbers:
+            # mirrored spelling `2 == opt.number`
+            g = ast.Compare(left=g.comparators[0], ops=g.ops, comparators=[g.left])
+        if isinstance(g, ast.Compare) and len(g.ops) == 1 and chain(g.left) in numbers:
             op, r = g.ops[0], g.comparators[0]
             try:
                 k = norm.consteval(r)
@@ -1287,17 +1353,44 @@ def _option_domain(ctx, others, loopvars):
     return alive, rest
 
 
-def _loopvars(others, M):
-    """Names bound by enclosing `for X in <M>.opt.option_list()` loops."""
+def _loopvars(others, M, fnode=None):
+    """Names bound by enclosing `for X in <M>.opt.option_list()` loops (the
+    iterable possibly held in a single-assignment local or wrapped in
+    list()/tuple()/iter(), which do not change the elements)."""
     out = set()
     for g, pol in others:
-        if isinstance(g, ast.For) and pol and isinstance(g.target, ast.Name) and match("%s.opt.option_list()" % M, g.iter) is not None:
-            out.add(g.target.id)
+        if isinstance(g, ast.For) and pol and isinstance(g.target, ast.Name):
+            it = g.iter
+            for _ in range(3):
+                if isinstance(it, ast.Name) and fnode is not None:
+                    it = resolve_local(fnode, it)
+                if isinstance(it, ast.Call) and isinstance(it.func, ast.Name) and it.func.id in ("list", "tuple", "iter") and len(it.args) == 1 and not it.keywords:
+                    it = it.args[0]
+            if match("%s.opt.option_list()" % M, it) is not None:
+                out.add(g.target.id)
     return out
 
 
 # ---------------------------------------------------------------------------
 # C15.g  signalling
+
+
+def _is_mms_option(prog, fi, e):
+    """e constructs optiontypes.UintOption(number=2, value=self._my_max_message_size)"""
+    if not (isinstance(e, ast.Call) and chain(e.func) and prog.resolve_in_module(fi.module, chain(e.func)) == "aiocoap.optiontypes.UintOption"):
+        return False
+    if any(isinstance(a_, ast.Starred) for a_ in e.args) or any(k.arg is None for k in e.keywords):
+        return False
+    kw = {k.arg: k.value for k in e.keywords}
+    num = e.args[0] if len(e.args) >= 1 else kw.get("number")
+    val = e.args[1] if len(e.args) >= 2 else kw.get("value")
+    if num is None or val is None:
+        return False
+    try:
+        n = norm.consteval(num)
+    except NormError:
+        return False
+    return n == 2 and not isinstance(n, bool) and chain(val) == "self._my_max_message_size"
 
 
 @R.clause("C15.g", "signalling: CSM options 2/4, unknown critical options and unknown 7.xx abort, Ping is answered by Pong with the same token, Release/Abort fail the pending requests and close")
@@ -1316,16 +1409,22 @@ def g(ctx):
             v = None
         ctx.ob("Code.%s == %d (7.%02d)" % (name, val, val - 224), v == val, None, None, construct="Code.%s = %s" % (name, _txt(codecls.attrs[name])))
     cfi = prog.func("numbers.optionnumbers.OptionNumber.is_critical")
-    t = _method_predicate(cfi)
-    crit_ok = False
-    if isinstance(t, ast.Compare) and len(t.ops) == 1 and isinstance(t.ops[0], (ast.Eq, ast.NotEq)):
+    # evaluated by the checker's own evaluator for option numbers 0..299 and a few
+    # large ones (any spelling of "bit 0 is set": & 1, % 2, bool(..), if/else)
+    crit_ok = True
+    crit_detail = None
+    cp = params(cfi, skip_self=False)
+    ctx.need(len(cp) == 1 and not writes_to_name(cfi.node, cp[0]), "OptionNumber.is_critical(self) signature changed")
+    for n in list(range(300)) + [2049, 65000, 65001, 65535, 65536, 65537, 2 ** 20 + 1, 2 ** 31, 2 ** 31 + 1]:
         try:
-            fl = norm.bitfields(t.left)
-            k = norm.consteval(t.comparators[0])
-            crit_ok = fl == [("self", 0, 1, 0)] and ((k == 1 and isinstance(t.ops[0], ast.Eq)) or (k == 0 and isinstance(t.ops[0], ast.NotEq)))
-        except NormError:
-            crit_ok = False
-    ctx.ob("OptionNumber.is_critical tests bit 0 of the option number", crit_ok, cfi, cfi.node, construct="OptionNumber.is_critical")
+            got = K.eval_predicate(cfi.node, {cp[0]: n}, what="OptionNumber.is_critical")
+        except AnalysisError as ex:
+            crit_ok, crit_detail = False, str(ex)
+            break
+        if got is not (n % 2 == 1):
+            crit_ok, crit_detail = False, "option number %d is %sconsidered critical" % (n, "" if got else "not ")
+            break
+    ctx.ob("OptionNumber.is_critical tests bit 0 of the option number", crit_ok, cfi, cfi.node, construct="OptionNumber.is_critical", detail=crit_detail)
 
     fi = prog.func("transports.rfc8323common.RFC8323Remote._process_signaling")
     p = params(fi)
@@ -1336,12 +1435,14 @@ def g(ctx):
     known = set(SIGNALLING.values())
 
     def is_code(e):
+        if isinstance(e, ast.Name):
+            e = resolve_local(fi.node, e)
         return chain(e) == M + ".code"
 
     def site(node):
         nid = cfg.loc1(node)
         alive, others = _site_domain(ctx, fi, cfg, nid, is_code, dom)
-        lvs = _loopvars(others, M)
+        lvs = _loopvars(others, M, fi.node)
         nums, rest = _option_domain(ctx, others, lvs)
         return nid, alive, lvs, nums, rest
 
@@ -1382,12 +1483,25 @@ def g(ctx):
     # readers of the settings use the keys written
     rcls = prog.cls("transports.rfc8323common.RFC8323Remote")
     read = 0
+
+    def on_settings(e):
+        return "self._remote_settings" in {chain(x) for x in ast.walk(e) if isinstance(x, ast.Attribute)}
+
     for mname, mfi in sorted(rcls.methods.items()):
-        for call in calls_in(mfi.node):
-            if isinstance(call.func, ast.Attribute) and call.func.attr == "get" and call.args and "self._remote_settings" in {chain(x) for x in ast.walk(call.func.value) if isinstance(x, ast.Attribute)}:
-                k = call.args[0]
-                read += 1
-                ctx.ob("peer settings are read under a key that _process_signaling writes", isinstance(k, ast.Constant) and k.value in seen_keys, mfi, call)
+        # every spelling of a keyed read: .get(k[, d]), [k], `k in`
+        for x in walk_no_nested(mfi.node):
+            k = None
+            if isinstance(x, ast.Call) and isinstance(x.func, ast.Attribute) and x.func.attr == "get" and x.args and on_settings(x.func.value):
+                k = x.args[0]
+            elif isinstance(x, ast.Subscript) and isinstance(x.ctx, ast.Load) and not isinstance(x.slice, ast.Slice) and on_settings(x.value):
+                k = x.slice
+            elif isinstance(x, ast.Compare) and len(x.ops) == 1 and isinstance(x.ops[0], (ast.In, ast.NotIn)) and on_settings(x.comparators[0]):
+                k = x.left
+            if k is None:
+                continue
+            read += 1
+            k = resolve_local(mfi.node, k)
+            ctx.ob("peer settings are read under a key that _process_signaling writes", isinstance(k, ast.Constant) and k.value in seen_keys, mfi, x)
     ctx.floor("reads of the peer settings", read, 2)
 
     # aborts
@@ -1419,10 +1533,10 @@ def g(ctx):
         nid, alive, lvs, nums, rest = site(c_)
         m = _resolve_at(fi, cfg, c_.args[0], nid)
         code = tok = None
-        if _is_message_ctor(prog, fi, m):
-            kw = {k.arg: k.value for k in m.keywords}
-            code = _code_member(prog, fi.module, kw["code"]) if "code" in kw else None
-            tok = kw.get("token")
+        flds = _message_fields(prog, fi, cfg, c_.args[0], nid)
+        if flds is not None:
+            code = _code_member(prog, fi.module, flds["code"]) if flds.get("code") is not None else None
+            tok = flds.get("token", flds.get("_token"))
         ok = alive == {SIGNALLING["PING"]} and not lvs and not rest
         ctx.ob("the only message sent from signalling processing answers a Ping, unconditionally", ok, fi, c_, detail="codes %s, further conditions %s" % (sorted(alive), [_txt(g_) for g_, _ in rest]))
         ctx.ob("the answer to Ping is a 7.03 Pong", code == SIGNALLING["PONG"], fi, c_, detail="message %s" % _txt(m))
@@ -1440,9 +1554,12 @@ def g(ctx):
         cls = prog.resolve_in_module(fi.module, chain(ex.func)) if isinstance(ex, ast.Call) and chain(ex.func) else None
         inner = None
         if isinstance(ex, ast.Call) and len(ex.args) == 1 and not ex.keywords:
-            a0 = _resolve_at(fi, cfg, ex.args[0], nid)
-            if isinstance(a0, ast.Call) and chain(a0.func):
-                inner = prog.resolve_in_module(fi.module, chain(a0.func))
+            # every value the argument may have here (a local assigned on several
+            # branches, a conditional expression) must be the same kind of error
+            alts = _possible_values(fi, cfg, ex.args[0], nid) or []
+            kinds = {prog.resolve_in_module(fi.module, chain(a0.func)) if isinstance(a0, ast.Call) and chain(a0.func) else None for a0 in alts}
+            if len(kinds) == 1:
+                inner = kinds.pop()
         ok_cls = cls == "aiocoap.transports.rfc8323common.CloseConnection" and inner == "aiocoap.error.RemoteServerShutdown"
         ctx.ob("signalling processing raises only CloseConnection(RemoteServerShutdown(...)) with the error as single argument", ok_cls, fi, r, detail="raises %s(%s)" % (cls, inner))
         ok = alive <= {SIGNALLING["RELEASE"], SIGNALLING["ABORT"]} and bool(alive) and not lvs and not rest
@@ -1463,7 +1580,7 @@ def g(ctx):
     ctx.floor("_process_signaling sites in data_received", len(L.signalling), 1)
     for call in L.signalling:
         nid = dcfg.loc1(call)
-        ctx.ob("the message given to signalling processing is the one just decoded", len(call.args) == 1 and isinstance(_def_stmt(dfi, dcfg, call.args[0], nid), ast.Assign) and _def_stmt(dfi, dcfg, call.args[0], nid).value is L.dec, dfi, call)
+        ctx.ob("the message given to signalling processing is the one just decoded", len(call.args) == 1 and not call.keywords and _is_decoded(L, call.args[0], nid), dfi, call)
         hs = [h for h, lab in dcfg.succ[nid] if lab == "exc" and dcfg.nodes[h].kind == "handler"]
         good = []
         for h in hs:
@@ -1475,8 +1592,9 @@ def g(ctx):
         for h in good:
             hn = dcfg.nodes[h].ast
             de = [c_ for c_ in calls_in(dfi.node) if isinstance(c_.func, ast.Attribute) and c_.func.attr == "_dispatch_error" and hn.name is not None
-                  and len(c_.args) == 2 and chain(c_.args[0]) == "self" and match("%s.args[0]" % hn.name, c_.args[1]) is not None]
-            cl = [c_ for c_, _ in find("self._transport.close()", dfi.node)]
+                  and len(c_.args) == 2 and not c_.keywords and chain(_resolve_at(dfi, dcfg, c_.args[0], dcfg.loc1(c_))) == "self"
+                  and match("%s.args[0]" % hn.name, _resolve_at(dfi, dcfg, c_.args[1], dcfg.loc1(c_))) is not None]
+            cl = _calls_on(dfi, dcfg, "self._transport", {"close", "abort"})
             stop = {L.E, dcfg.exit}
             ok_de = bool(de) and all(dcfg.must_pass(h, {dcfg.loc1(c_) for c_ in de}, to=t_) for t_ in stop)
             ok_cl = bool(cl) and all(dcfg.must_pass(h, {dcfg.loc1(c_) for c_ in cl}, to=t_) for t_ in stop)
@@ -1486,13 +1604,23 @@ def g(ctx):
     pp = params(pfi)
     ctx.need(len(pp) == 2 and not writes_to_name(pfi.node, pp[0]) and not writes_to_name(pfi.node, pp[1]), "_dispatch_error(self, connection, exc) signature changed")
     pcfg = cfg_of(pfi)
-    fw = [c_ for c_, _ in find("self._tokenmanager.dispatch_error(%s, %s)" % (pp[1], pp[0]), pfi.node)]
+    tmfi = prog.func("tokenmanager.TokenManager.dispatch_error")
+    tmp = params(tmfi)
+    ctx.need(len(tmp) == 2, "TokenManager.dispatch_error(self, exception, remote) signature changed")
+    fw = []
+    for c_ in _calls_on(pfi, pcfg, "self._tokenmanager", {"dispatch_error"}):
+        if any(isinstance(a_, ast.Starred) for a_ in c_.args) or any(k.arg is None for k in c_.keywords):
+            continue
+        bound = dict(zip(tmp, c_.args))
+        bound.update({k.arg: k.value for k in c_.keywords})
+        if set(bound) == set(tmp) and chain(_resolve_at(pfi, pcfg, bound[tmp[0]], pcfg.loc1(c_))) == pp[1] and chain(_resolve_at(pfi, pcfg, bound[tmp[1]], pcfg.loc1(c_))) == pp[0]:
+            fw.append(c_)
     ctx.ob("_dispatch_error hands (error, connection) to the token manager", len(fw) >= 1, pfi, pfi.node, construct="_dispatch_error")
     for c_ in fw:
         nid = pcfg.loc1(c_)
         extra = []
         for g_, pol, ps in pcfg.guards(nid):
-            nf = Normalizer().cmp(g_) if isinstance(g_, ast.expr) else None
+            nf = Normalizer().cmp(_resolve_at(pfi, pcfg, g_, _test_node_of(pcfg, ps))) if isinstance(g_, ast.expr) else None
             nf = nf if pol else (Normalizer().negate(nf) if nf else None)
             if nf != ("isnot", "self._tokenmanager", "None"):
                 extra.append(_txt(g_) if isinstance(g_, ast.expr) else type(g_).__name__)
@@ -1500,7 +1628,10 @@ def g(ctx):
     allfw = {pcfg.loc1(c_) for c_ in fw}
     for n in pcfg.nodes:
         if n.kind in ("T", "F") and isinstance(n.ast, ast.expr):
-            nf = Normalizer().cmp(n.ast)
+            try:
+                nf = Normalizer().cmp(_resolve_at(pfi, pcfg, n.ast, _test_node_of(pcfg, n.id)))
+            except NormError:
+                continue
             nf = nf if n.kind == "T" else Normalizer().negate(nf)
             if nf == ("isnot", "self._tokenmanager", "None"):
                 ctx.ob("with a token manager attached every normal path forwards the error", pcfg.must_pass(n.id, allfw), pfi, n.ast)
@@ -1515,18 +1646,47 @@ def g(ctx):
         a0 = c_.args[0]
         m = _resolve_at(ifi, icfg, a0, nid)
         code = None
-        if _is_message_ctor(prog, ifi, m):
-            kw = {k.arg: k.value for k in m.keywords}
-            code = _code_member(prog, ifi.module, kw["code"]) if "code" in kw else None
+        flds = _message_fields(prog, ifi, icfg, a0, nid)
+        if flds is not None:
+            code = _code_member(prog, ifi.module, flds["code"]) if flds.get("code") is not None else None
         ctx.ob("the initial message is a 7.01 CSM", code == SIGNALLING["CSM"], ifi, c_, detail="message %s" % _txt(m))
+        # the option is added to the very message object that is sent (same reaching
+        # definition of the local at both places), on every path to the send: the add
+        # site dominates the send, or it is executed in every iteration of a `for`
+        # over a literal sequence that dominates the send -- then each element of the
+        # sequence is a value the added option takes (joint binding of the loop targets)
         found = False
-        if isinstance(a0, ast.Name):
-            for ac, b_ in find("%s.opt.add_option($o)" % a0.id, ifi.node):
+        mdef = _def_stmt(ifi, icfg, a0, nid) if isinstance(a0, ast.Name) else None
+        consts = _consts_of(prog, ifi)
+
+        def for_of_name(nm, an):
+            w = _def_stmt(ifi, icfg, nm, an)
+            return w if isinstance(w, ast.For) else None
+
+        def elements_of(f):
+            return K.literal_elements(_resolve_at(ifi, icfg, f.iter, icfg.loc1(f)), consts)
+
+        if mdef is not None:
+            for ac in calls_in(ifi.node):
+                if not (isinstance(ac.func, ast.Attribute) and ac.func.attr == "add_option" and isinstance(ac.func.value, ast.Attribute) and ac.func.value.attr == "opt"
+                        and len(ac.args) == 1 and not ac.keywords):
+                    continue
                 an = icfg.loc1(ac)
-                o = _resolve_at(ifi, icfg, b_["o"], an)
-                ob_ = match("optiontypes.UintOption(2, self._my_max_message_size)", o)
-                if ob_ is not None and icfg.dominates(an, nid):
-                    found = True
+                recv = ac.func.value.value
+                if not (isinstance(recv, ast.Name) and _def_stmt(ifi, icfg, recv, an) is mdef):
+                    continue
+                o = _resolve_at(ifi, icfg, ac.args[0], an)
+                for alt, idx in K.loop_alternatives(o, lambda nm: for_of_name(nm, an), elements_of):
+                    if not _is_mms_option(prog, ifi, alt):
+                        continue
+                    loops = [f for f in ast.walk(ifi.node) if isinstance(f, ast.For) and id(f) in idx]
+                    if not loops:
+                        always = icfg.dominates(an, nid)
+                    else:
+                        always = len(loops) == 1 and K.runs_every_iteration(icfg, loops[0], an) and all(icfg.dominates(h_, nid) for h_ in icfg.locate(loops[0])) \
+                            and an not in icfg.reach({nid})
+                    if always:
+                        found = True
         ctx.ob("the CSM announces option 2 Max-Message-Size = self._my_max_message_size (the limit the size gate enforces)", found, ifi, c_)
     mfi = prog.func(TCP + "TcpConnection.connection_made")
     mcfg = cfg_of(mfi)
@@ -1539,6 +1699,22 @@ def g(ctx):
 
 
 EFFECT_NAMES = ("process_request", "process_response", "_process_signaling", "abort")
+
+
+def _decoded_is_message(ctx):
+    """every returning path of _decode_message returns a freshly constructed Message"""
+    r = getattr(ctx, "_c15_decoded_is_message", None)
+    if r is None:
+        prog = ctx.prog
+        dfi = prog.func(TCP + "_decode_message")
+        try:
+            paths = _enumerate_paths(dfi.node, what="_decode_message", consts=_consts_of(prog, dfi))
+            rets = [p for p in paths if p.kind == "return"]
+            r = bool(rets) and all(p.value is not None and _is_message_ctor(prog, dfi, p.value) for p in rets)
+        except AnalysisError:
+            r = False
+        ctx._c15_decoded_is_message = r
+    return r
 
 
 def _walk_effects(ctx, fi, cfg, start, stop, is_msg, v, csm, callees, depth=0):
@@ -1563,43 +1739,115 @@ def _walk_effects(ctx, fi, cfg, start, stop, is_msg, v, csm, callees, depth=0):
             continue
 
         def is_code(e, nid=nid):
+            if isinstance(e, ast.Name):
+                # a local holding the code (`code = msg.code`): its unique reaching definition
+                w = _def_stmt(fi, cfg, e, nid)
+                if isinstance(w, ast.Assign) and len(w.targets) == 1 and isinstance(w.targets[0], ast.Name) and isinstance(w.value, ast.Attribute):
+                    wn = cfg.loc1(w)
+                    return w.value.attr == "code" and is_msg(w.value.value, wn)
+                return False
             return isinstance(e, ast.Attribute) and e.attr == "code" and is_msg(e.value, nid)
 
-        branches = [(eff, None)]
+        def atomic(t):
+            r = _eval_code_test(ctx, fi.module, t, is_code, v)
+            if r is None and isinstance(t, ast.Compare) and len(t.ops) == 1 and isinstance(t.ops[0], (ast.Is, ast.IsNot, ast.Eq, ast.NotEq)):
+                # `<decoded message> is None`: every returning path of _decode_message returns a
+                # freshly constructed Message (premise checked by the caller), so it is not None
+                l_, r_ = t.left, t.comparators[0]
+                if isinstance(l_, ast.Constant) and l_.value is None:
+                    l_, r_ = r_, l_
+                if isinstance(r_, ast.Constant) and r_.value is None and is_msg(l_, nid) and _decoded_is_message(ctx):
+                    r = isinstance(t.ops[0], (ast.IsNot, ast.NotEq))
+            if r is None:
+                try:
+                    nf = Normalizer().cmp(t)
+                except NormError:
+                    nf = None
+                if nf in (("is", "self._remote_settings", "None"), ("isnot", "self._remote_settings", "None")):
+                    r = (not csm) if nf[0] == "is" else csm
+                elif nf == ("truth", "self._remote_settings") and not csm:
+                    r = False
+            return r
+
+        def tri(t):
+            """three-valued truth of a (possibly compound) test for this code value / CSM state"""
+            if isinstance(t, ast.UnaryOp) and isinstance(t.op, ast.Not):
+                r = tri(t.operand)
+                return None if r is None else not r
+            if isinstance(t, ast.BoolOp):
+                rs = [tri(x) for x in t.values]
+                if isinstance(t.op, ast.And):
+                    return False if any(r is False for r in rs) else (True if all(r is True for r in rs) else None)
+                return True if any(r is True for r in rs) else (False if all(r is False for r in rs) else None)
+            return atomic(t)
+
+        def callables(f, depth=0):
+            """[(name, leading arguments)] of the functions a callee expression may
+            denote here: a method / function name, either arm of a conditional
+            expression (decided by the code value where it is about the code), a local
+            bound to one of these, functools.partial(f, a...).  None = unknown."""
+            if depth > 4:
+                return None
+            if isinstance(f, ast.Attribute):
+                return [(f.attr, [])]
+            if isinstance(f, ast.Name):
+                r = _resolve_at(fi, cfg, f, nid)
+                if isinstance(r, ast.Name):
+                    return [(r.id, [])]
+                return callables(r, depth + 1)
+            if isinstance(f, ast.IfExp):
+                r = tri(f.test)
+                arms = [f.body, f.orelse] if r is None else [f.body if r else f.orelse]
+                out = []
+                for a_ in arms:
+                    c_ = callables(a_, depth + 1)
+                    if c_ is None:
+                        return None
+                    out.extend(c_)
+                return out
+            if isinstance(f, ast.Call) and chain(f.func) in ("functools.partial", "partial") and f.args and not f.keywords:
+                c_ = callables(f.args[0], depth + 1)
+                if c_ is None:
+                    return None
+                return [(nm_, list(f.args[1:]) + pre) for nm_, pre in c_]
+            return None
+
+        branches = [eff]
         if node.kind in ("stmt", "return", "with", "for") and node.ast is not None:
             root = node.ast.iter if node.kind == "for" else node.ast
             if node.kind == "with":
                 root = ast.Tuple(elts=[it.context_expr for it in node.ast.items], ctx=ast.Load())
             for call in [x for x in walk_no_nested(root) if isinstance(x, ast.Call)]:
-                nm = call.func.attr if isinstance(call.func, ast.Attribute) else (call.func.id if isinstance(call.func, ast.Name) else None)
-                passes_msg = any(is_msg(a_, nid) for a_ in call.args) or any(is_msg(k.value, nid) for k in call.keywords)
-                if nm in EFFECT_NAMES and (passes_msg or nm == "abort"):
-                    branches = [(e_ + ((nm, fi, call),), None) for e_, _ in branches]
-                elif nm in callees and passes_msg:
-                    cfi = callees[nm]
-                    ctx.need(depth < 2, "dispatch nesting deeper than expected")
-                    cp = params(cfi)
-                    idx = [i for i, a_ in enumerate(call.args) if is_msg(a_, nid)]
-                    ctx.need(len(idx) == 1 and idx[0] < len(cp) and not call.keywords, "cannot map the message argument of %s" % _txt(call))
-                    pname = cp[idx[0]]
-                    ctx.need(not writes_to_name(cfi.node, pname), "%s rebinds its message parameter" % cfi.short)
-                    ccfg = cfg_of(cfi)
-                    sub = _walk_effects(ctx, cfi, ccfg, ccfg.entry, set(), lambda e_, _n, pname=pname: isinstance(e_, ast.Name) and e_.id == pname, v, csm, callees, depth + 1)
-                    branches = [(e_ + s, None) for e_, _ in branches for s in sub]
-                elif passes_msg and not is_log_call(call) and nm not in ("debug", "info", "warning"):
-                    raise AnalysisError("the message is handed to %s, which the dispatch evaluation does not know" % _txt(call.func))
-        for eff2, _ in branches:
+                cands = callables(call.func)
+                if cands is None:
+                    if any(is_msg(a_, nid) for a_ in call.args) or any(is_msg(k.value, nid) for k in call.keywords):
+                        raise AnalysisError("the message is handed to %s, which the dispatch evaluation does not know" % _txt(call.func))
+                    continue
+                nbranches = []
+                for nm, pre in cands:
+                    args = pre + list(call.args)
+                    passes_msg = any(is_msg(a_, nid) for a_ in args) or any(is_msg(k.value, nid) for k in call.keywords)
+                    if nm in EFFECT_NAMES and (passes_msg or nm == "abort"):
+                        nbranches += [e_ + ((nm, fi, call),) for e_ in branches]
+                    elif nm in callees and passes_msg:
+                        cfi = callees[nm]
+                        ctx.need(depth < 2, "dispatch nesting deeper than expected")
+                        cp = params(cfi)
+                        idx = [i for i, a_ in enumerate(args) if is_msg(a_, nid)]
+                        ctx.need(len(idx) == 1 and idx[0] < len(cp) and not call.keywords, "cannot map the message argument of %s" % _txt(call))
+                        pname = cp[idx[0]]
+                        ctx.need(not writes_to_name(cfi.node, pname), "%s rebinds its message parameter" % cfi.short)
+                        ccfg = cfg_of(cfi)
+                        sub = _walk_effects(ctx, cfi, ccfg, ccfg.entry, set(), lambda e_, _n, pname=pname: isinstance(e_, ast.Name) and e_.id == pname, v, csm, callees, depth + 1)
+                        nbranches += [e_ + s_ for e_ in branches for s_ in sub]
+                    elif passes_msg and not is_log_call(call) and nm not in ("debug", "info", "warning") and not (nm == "partial" or chain(call.func) == "functools.partial"):
+                        raise AnalysisError("the message is handed to %s, which the dispatch evaluation does not know" % _txt(call.func))
+                    else:
+                        nbranches += branches
+                branches = nbranches
+        for eff2 in branches:
             if node.kind == "test":
-                r = _eval_code_test(ctx, fi.module, node.ast, is_code, v)
-                if r is None:
-                    try:
-                        nf = Normalizer().cmp(node.ast)
-                    except NormError:
-                        nf = None
-                    if nf in (("is", "self._remote_settings", "None"), ("isnot", "self._remote_settings", "None")):
-                        r = (not csm) if nf[0] == "is" else csm
-                    elif nf == ("truth", "self._remote_settings") and not csm:
-                        r = False
+                r = atomic(node.ast)
                 for d, lab in cfg.succ[nid]:
                     if lab == "exc":
                         continue
@@ -1660,14 +1908,10 @@ def h(ctx):
 
     def _is_msg(e, nid):
         # the local holding the decoded message: its reaching definition at
-        # the point of use is the assignment from _decode_message
-        cands = [w for w in writes_to_name(fi.node, e.id) if isinstance(w, ast.Assign) and w.value is L.dec]
-        if not cands:
-            return False
+        # the point of use is the assignment from _decode_message (or a copy of it)
         if nid is None:
-            return True
-        w = _def_stmt(fi, cfg, e, nid)
-        return w is not None and w in cands
+            return any(_is_decoded(L, e, n_) for w in writes_to_name(fi.node, e.id) for n_ in cfg.locate(w))
+        return _is_decoded(L, e, nid)
 
     # tests on `<msg>.code` must see the decoded message, not the raw frame
     starts = [d for d, lab in cfg.succ[L.DEC] if lab != "exc"]
@@ -1767,6 +2011,12 @@ R.seed("C15.g", F_COMMON, "                    error.RemoteServerShutdown(\"Peer
 R.seed("C15.g", F_COMMON, "            self.abort(\"Unknown signalling code\")\n", "            pass\n", "unknown 7.xx ignored")
 R.seed("C15.g", F_TCP, "                    self._ctx._dispatch_error(self, e.args[0])\n                    self._transport.close()\n", "                    self._transport.close()\n", "pending requests not failed on Release/Abort")
 R.seed("C15.g", F_TCP, "        self._tokenmanager.dispatch_error(exc, connection)\n", "        self._tokenmanager.dispatch_error(connection, exc)\n", "error and connection swapped")
+R.seed("C15.g", F_COMMON, "        block_length = optiontypes.UintOption(2, self._my_max_message_size)\n", "        block_length = optiontypes.UintOption(2, 1152)\n", "the announced Max-Message-Size is not the limit the size gate enforces")
+R.seed("C15.g", F_COMMON, "        my_csm.opt.add_option(block_length)\n", "        if self._my_max_message_size != 1152:\n            my_csm.opt.add_option(block_length)\n", "Max-Message-Size announced only on some paths")
+R.seed("C15.g", "aiocoap/numbers/optionnumbers.py", "        return self & 0x01 == 0x01\n", "        return self & 0x02 == 0x02\n", "criticality read from the wrong bit")
+R.seed("C15.g", F_COMMON, "max_message_size = (self._remote_settings or {}).get(\"max-message-size\", 1152)\n        has_blockwise = (self._remote_settings or {}).get(\"block-wise-transfer\", False)\n        if max_message_size > 1152 and has_blockwise:\n            return 7", "max_message_size = (self._remote_settings or {}).get(\"max_message_size\", 1152)\n        has_blockwise = (self._remote_settings or {}).get(\"block-wise-transfer\", False)\n        if max_message_size > 1152 and has_blockwise:\n            return 7", "peer setting read under a key that is never written")
+# C15.e (the membership premise must not exempt an unguarded read)
+R.seed("C15.e", F_OPT, "        self._options.setdefault(option.number, []).append(option)\n", "        self._options[option.number].append(option)\n", "KeyError from an unguarded dict read while parsing options")
 # C15.h
 R.seed("C15.h", F_TCP, "        if msg.code.is_response():\n            self._tokenmanager.process_response(msg)", "        if msg.code.is_request():\n            self._tokenmanager.process_response(msg)", "requests and responses swapped")
 R.seed("C15.h", F_TCP, "            if msg.code.is_signalling():\n", "            if msg.code >= 225:\n", "7.00 treated as a request")
